@@ -783,3 +783,47 @@ func checkC19PrefixPlain(c *Ctx) {
 		}
 	}
 }
+
+// ---- C16.unused-argument-dropped
+func checkC16ArgDropped(c *Ctx) {
+	p, r := c.P, c.R
+	r.Rule("C16.unused-argument-dropped", "K1", "after every command the shell drops the count of a numeric argument the command did not use (Iterations.DropUnused, skipped only while a vi operator is pending): a kill that ignores its count does not hand it to the following yank", 2)
+	DU := p.Func("(*core.Iterations).DropUnused")
+	UP := p.Func("(*readline.Shell).updatePosRunHints")
+	if DU == nil || UP == nil {
+		r.Bad("C16.unused-argument-dropped", "core.Iterations.DropUnused", "-", "the count of an unused numeric argument is never dropped: \"M-3 M-d C-y\" kills one word and yanks it three times")
+		return
+	}
+	r.Fn(fnName(DU), fnName(UP))
+	clears := false
+	eachInstr(DU, func(in ssa.Instruction) {
+		if st, ok := isFieldStore(in, "core.Iterations", "times"); ok {
+			if s, isS := constString(st.Val); isS && s == "" {
+				clears = true
+			}
+		}
+	})
+	r.Check(clears, "C16.unused-argument-dropped", fnName(DU)+":times-cleared", p.Pos(DU.Pos()), "clears the stored count", "DropUnused no longer clears the stored count")
+	// called from the post-command hook under nothing but the vi-opp test
+	bf := blockFacts(UP)
+	n := 0
+	for i, call := range callsTo(UP, false, "(*core.Iterations).DropUnused") {
+		n++
+		extra := extraFacts(bf, call.(ssa.Instruction), func(v ssa.Value) bool {
+			bo, ok := v.(*ssa.BinOp)
+			if !ok {
+				return false
+			}
+			for _, o := range []ssa.Value{bo.X, bo.Y} {
+				if s, isS := constString(o); isS && s == "vi-opp" {
+					return true
+				}
+			}
+			return false
+		})
+		r.Check(extra == "", "C16.unused-argument-dropped", siteKey(UP, "DropUnused", i), p.IPos(call.(ssa.Instruction)), "after every command, except with a pending vi operator", "the unused count is dropped only under an extra condition ("+extra+")")
+	}
+	if n == 0 {
+		r.Bad("C16.unused-argument-dropped", fnName(UP)+":DropUnused", p.Pos(UP.Pos()), "the post-command hook does not drop unused arguments: \"M-3 M-d C-y\" kills one word and yanks it three times")
+	}
+}
